@@ -111,6 +111,7 @@ def cases(ctx):
                     g = gen.set_cell(g, nb, front_obj)
                 yield ([2], (g, (1, 1), o, held), 7, 'pickndrop-table')
     yield from tsuite.random_cases(ctx, n, focus=[2, 3, 5, 2], hi=6, floor_bias=0.4)
+    yield from tsuite.wrap_cases(ctx, n // 2, focus=[2, 3, 5])
     # long-ish histories on key / obstacle grids are covered by compositions of up to 5 functions here and by C01's trajectories
 
 
@@ -118,6 +119,7 @@ def run(ctx):
     ctx.rule = ('corpus, the full pick-and-drop table (every object in front x held items x headings), random states with every function and '
                 'random compositions; oracle counts the inventory on the real step; non-trivial = the step changed the state or raised')
     tsuite.run_cases(ctx, cases(ctx), oracle)
+    tsuite.run_histories(ctx, 150 if ctx.tier == 'quick' else 1500, oracle)
 
 
 def replay(ctx, case):
